@@ -1,0 +1,28 @@
+//go:build !verif
+
+// Package verifhook provides scheduling and fault-injection seams for the
+// deterministic simulation harness. Without the `verif` build tag every
+// function in this package is an empty, inlinable no-op.
+package verifhook
+
+import "context"
+
+// Enabled reports if the hooks are compiled in.
+const Enabled = false
+
+// Start marks the start of a long-running goroutine with a given role.
+func Start(ctx context.Context, role, name string) {}
+
+// Yield marks a point where a simulated scheduler may suspend the caller.
+func Yield(ctx context.Context, point string) {}
+
+// InWriteTxn marks a point inside an LMDB write transaction. The caller is
+// never suspended here.
+func InWriteTxn(ctx context.Context, point string) {}
+
+// Pick lets the simulated scheduler make a choice in [0,n). Without the tag
+// it always returns -1 (no choice made).
+func Pick(point string, n int) int { return -1 }
+
+// Expired lets the simulated scheduler declare a deadline as expired early.
+func Expired(point string) bool { return false }
